@@ -245,7 +245,7 @@ pub fn run(opts: &Opts) -> Report {
 /// sub-sequence of one connection is compared, never the interleaving of
 /// different writers.
 fn order_part(rep: &mut Report, opts: &Opts) {
-    let n = if cfg!(miri) { 3 } else { opts.n(200, 5000) };
+    let n = if cfg!(miri) { 8 } else { opts.n(200, 5000) };
     let mut dopt = gen::DagOpts::default();
     if cfg!(miri) {
         dopt.max_nodes = 3;
